@@ -339,7 +339,10 @@ def run(ctx, build):
             any_raises = False
             for ci, (gname, want, obs) in enumerate(chosen):
                 f.copy(f[gname], t, name='m%d' % ci)
-                if want:
+                # judged on the copy as it is NOW: a "dangling" link only dangles once the last open handle of the deleted
+                # ancillary is gone, which happens after the object was examined above
+                cp = t['m%d' % ci].get('Raw_Data')
+                if cp is not None and is_main_spec(describe(f, cp, [])):
                     wanted.append(t.name + '/m%d/Raw_Data' % ci)
                 any_raises |= obs == 2
             hist['trees'] += 1
@@ -347,7 +350,17 @@ def run(ctx, build):
                 with common.quiet():
                     got = sorted(x.name for x in get_all_main(t))
                 if got != sorted(wanted):
-                    violate('hdf_utils.get_all_main', 'any', 'search_result_not_exact', 'got %s want %s' % (got, wanted), {'tree': [c[0] for c in chosen]})
+                    diag = []
+                    for ci, (gname, want, obs) in enumerate(chosen):
+                        o = t['m%d' % ci].get('Raw_Data')
+                        try:
+                            with common.quiet():
+                                r = None if o is None else bool(check_if_main(o))
+                        except Exception as e2:
+                            r = repr(e2)[:80]
+                        diag.append({'source': gname, 'rules_hold_for_source': want, 'check_if_main_on_source': obs, 'check_if_main_on_copy': r,
+                                     'copy_descriptor_valid': None if o is None else is_main_spec(describe(f, o, []))})
+                    violate('hdf_utils.get_all_main', 'any', 'search_result_not_exact', 'got %s want %s; %s' % (got, wanted, diag), {'tree': [c[0] for c in chosen], 'diagnosis': diag})
             except Exception as e:
                 cls = 'tree_contains_object_on_which_check_if_main_raises' if any_raises else 'any'
                 violate('hdf_utils.get_all_main', cls, 'raises', '%r for %s' % (e, [c[0] for c in chosen]), {'tree': [c[0] for c in chosen]})
